@@ -360,6 +360,21 @@ func (fr *Frame) execUnOp(x *ssa.UnOp, st *State) {
 			unsupported("load from %T", addr)
 		}
 		fr.set(x, t)
+		if _, isFn := types.Unalias(T).Underlying().(*types.Signature); isFn {
+			// remember from which struct field a function value was loaded (dynamic calls are resolved by `dyn T.Field` contracts)
+			if l, ok := addr.(*Loc); ok && len(l.path) > 0 && l.path[len(l.path)-1].field >= 0 {
+				pe := l.path[len(l.path)-1]
+				if n, ok := types.Unalias(pe.contT).(*types.Named); ok {
+					if r.funcProv == nil {
+						r.funcProv = map[string]string{}
+					}
+					stt := pe.contT.Underlying().(*types.Struct)
+					if tv, ok := fr.vals[x].(Term); ok {
+						r.funcProv[tv.S] = typeKey(n) + "." + stt.Field(pe.field).Name()
+					}
+				}
+			}
+		}
 		if al, ok := x.X.(*ssa.Alloc); ok && al.Heap {
 			if o, ok := r.cellOrigin[al]; ok {
 				r.recordSliceTag(fr.vals[x], o)
@@ -600,6 +615,8 @@ func (fr *Frame) execTypeAssert(x *ssa.TypeAssert, st *State) {
 	} else {
 		ok = eq(app("Int", "if_tag", v), u.typeID(T))
 		res = ite(ok, r.unboxIface(T, v), u.zeroOf(T))
+		// an interface value of dynamic type T is the boxing of its payload
+		r.assume(st, implies(ok, eq(v, r.makeIface(T, r.unboxIface(T, v)))))
 	}
 	if x.CommaOk {
 		fr.vals[x] = Tuple{r.def(x.Name(), res), r.def(x.Name()+"ok", ok)}
